@@ -152,6 +152,47 @@ fn panic_text(p: Box<dyn std::any::Any + Send>) -> (bool, String) {
     (false, s)
 }
 
+/// The scripted replacement closure shared by streamsim and threadsim.
+pub fn scripted_closure<'a>(
+    w2: Shared,
+    script: &'a [ClosureStep],
+    table: &'a [Vec<u8>],
+) -> impl FnMut(&aho_corasick::Match, &[u8], &mut SimWriter) -> io::Result<()> + 'a {
+    move |m, bytes, wtr: &mut SimWriter| {
+        let mm = m3(*m);
+        let (step, failed, after_write) = closure_call(&w2, script, mm, bytes);
+        let r = (|| -> io::Result<()> {
+            if let Some(kind) = failed {
+                if !after_write {
+                    return Err(io::Error::new(kind.to_io(), "injected closure fault"));
+                }
+            }
+            let entry: &[u8] =
+                table.get(mm.0 as usize).map(|v| v.as_slice()).unwrap_or(b"");
+            match step {
+                ClosureStep::Table => wtr.write_all(entry)?,
+                ClosureStep::TableBytewise => {
+                    for b in entry {
+                        wtr.write_all(&[*b])?;
+                    }
+                }
+                ClosureStep::Nothing => {}
+                ClosureStep::Echo => wtr.write_all(bytes)?,
+            }
+            if let Some(kind) = failed {
+                closure_failed_after_write(&w2, kind);
+                return Err(io::Error::new(
+                    kind.to_io(),
+                    "injected closure fault (after write)",
+                ));
+            }
+            Ok(())
+        })();
+        closure_done(&w2);
+        r
+    }
+}
+
 /// Execute the scenario once (with the faults it lists).
 pub fn run_once(sc: &StreamScenario, sut: &Sut, record: bool) -> Run {
     let stream = Arc::new(sc.stream.clone());
@@ -285,45 +326,7 @@ pub fn run_once_shared(
             let r = sut.stream_replace_all_with(
                 &mut rdr,
                 wtr,
-                |m, bytes, wtr: &mut SimWriter| {
-                    let mm = m3(*m);
-                    let (step, failed, after_write) =
-                        closure_call(&w2, script, mm, bytes);
-                    let r = (|| -> io::Result<()> {
-                        if let Some(kind) = failed {
-                            if !after_write {
-                                return Err(io::Error::new(
-                                    kind.to_io(),
-                                    "injected closure fault",
-                                ));
-                            }
-                        }
-                        let entry: &[u8] = table
-                            .get(mm.0 as usize)
-                            .map(|v| v.as_slice())
-                            .unwrap_or(b"");
-                        match step {
-                            ClosureStep::Table => wtr.write_all(entry)?,
-                            ClosureStep::TableBytewise => {
-                                for b in entry {
-                                    wtr.write_all(&[*b])?;
-                                }
-                            }
-                            ClosureStep::Nothing => {}
-                            ClosureStep::Echo => wtr.write_all(bytes)?,
-                        }
-                        if let Some(kind) = failed {
-                            closure_failed_after_write(&w2, kind);
-                            return Err(io::Error::new(
-                                kind.to_io(),
-                                "injected closure fault (after write)",
-                            ));
-                        }
-                        Ok(())
-                    })();
-                    closure_done(&w2);
-                    r
-                },
+                scripted_closure(w2, script, table),
             );
             let mut w = lock(&world);
             match r {
